@@ -29,6 +29,10 @@
   call keeps a document inside the C01 domain `Representable` (of the grown tables), so the text the
   repaired document serialises to parses back to exactly the repaired tree, which is deep_equal to the
   tree before the call.
+
+  Section InnerFull (end of file): `C10_repair_roundtrip_inner_full`, the call on an ELEMENT anywhere inside a
+  document of a store reached by parses and API calls, then `to_string(element)`, then `parse`: the standalone
+  document of the repaired element, deep_equal to the element before the call.
 -/
 import XotModel.Lemmas.FStack
 import XotModel.Lemmas.Scope10
@@ -1725,5 +1729,134 @@ example :
   decide
 
 end DocumentKeepsAndEveryTree
+
+/-! ## An INNER element over histories that parse: parse ∘ API edits ∘ `create_missing_prefixes(element)` ∘
+       `to_string(element)` ∘ parse
+
+`C10_repair_roundtrip_inner` (section RepairRoundTrip) is about the tree-level model on a tree in the C01 domain;
+`C10_reachable_repair_roundtrip_full` is the call on the DOCUMENT node of a reachable tree.  The twin for the call
+on an ELEMENT anywhere inside a reachable document: `C10_forest_repair_refines_tree` (element branch of the
+refinement, Props/C04.lean) ∘ `C10_repair_roundtrip_inner` ∘ `C01_reachable_representable_full` ∘ `C04_reach_full`. -/
+
+section InnerFull
+open XotModel.Repair
+
+/-- ⟦C10_repair_roundtrip_inner_full⟧ **`create_missing_prefixes(element)` as a step of a history that parses
+    and edits, then `to_string(element)`, then `parse`.**  `S` is the store after any FULL history `cs` from
+    `Xot::new()` with the tables `env` (`PCall`: `parse` / `parse_fragment` of ARBITRARY texts, accepted or
+    rejected, and well-kinded extended API calls in any order; consolidation never switched off), `r` any
+    parentless tree of it whose root is a document node, with VALUES in the XML domain for the tables of the
+    store (`envOK`, `valueOK` everywhere, distinct `xml:id`s; fragments allowed: NO condition on the number of
+    top-level elements; the names need NOT be writable), `nameTableOK`; `node` ANY live ELEMENT of `r`; `S'` the
+    store after the history extended by the step `create_missing_prefixes(node)`.  Then the step answers `Ok`,
+    `S'` has the invariant, the xml:id index is untouched; the tree `r'` that `r` has become (in `r`'s place,
+    `node` at the same path, every old handle kept in document order, new namespace nodes on fresh handles) is
+    the tree model's answer on the erased tree, is in the C01 domain for the tables of `S'`, every name below
+    `node` is writable, and `to_string(node)` — which writes the declarations in scope at `node` before its own —
+    succeeds and parses back, tables of `S'` unchanged, to the STANDALONE document of the repaired element,
+    whose document element is `deep_equal` to the repaired element and to the element BEFORE the call (from
+    which it differs in namespace nodes only). -/
+theorem C10_repair_roundtrip_inner_full (env : Env) (cs : List PCall) (hw : ∀ c ∈ cs, c.wellKinded)
+    (S : PStore) (hS : S = (PStore.init env).run cs) (hoff : S.forest.everOff = false)
+    (r : HTree) (hr : r ∈ S.forest.roots) (hdoc : r.value.isDocument = true) (henv : envOK S.env = true)
+    (hval : r.erase.allNodes (fun v _ => valueOK S.env v) = true)
+    (hid : (xmlIdValues S.env r.erase).Nodup) (htab : nameTableOK S.env = true)
+    (node : Nat) (hn : node ∈ r.handles) (hel : S.forest.isElement node = true)
+    (S' : PStore) (hS' : S' = (PStore.init env).run (cs ++ [.api (.createMissingPrefixes node)])) :
+    ((PCall.api (.createMissingPrefixes node)).run S).2 = .api .ok ∧ S'.forest.Inv ∧ S'.index = S.index ∧
+    ∃ (r' : HTree) (path : Path) (name : Nat) (ks ks' : List Tree),
+      r.pathOf node = some path ∧ r'.pathOf node = some path ∧
+      S'.forest.roots = S.forest.roots.map (fun y => if (y.pathOf node).isSome then r' else y) ∧
+      S'.forest.rootOf? node = some r' ∧
+      r'.handles.filter (· < S.forest.next) = r.handles ∧
+      createMissingPrefixes S.env r.erase path = .ok (S'.env, r'.erase) ∧
+      r.erase.at? path = some (.node (.element name) ks) ∧
+      r'.erase.at? path = some (.node (.element name) ks') ∧
+      Repair.stripNs (.node (.element name) ks') = Repair.stripNs (.node (.element name) ks) ∧
+      RepresentableFragment S'.env r'.erase = true ∧ namesWritable S'.env r'.erase path = some true ∧
+      ∃ s p X, toXmlString S'.env r'.erase path = .ok s ∧
+        standalone r'.erase path = some (.node .document [.node (.element name) (nsLeaves X ++ ks')]) ∧
+        parseString .document S'.env s = .ok p ∧
+        p.tree = .node .document [.node (.element name) (nsLeaves X ++ ks')] ∧ p.env = S'.env ∧
+        deepEqual (.node (.element name) (nsLeaves X ++ ks')) (.node (.element name) ks') = true ∧
+        deepEqual (.node (.element name) (nsLeaves X ++ ks')) (.node (.element name) ks) = true := by
+  have hi' : S'.forest.Inv := by
+    rw [hS']
+    refine (C04_reach_full env _ (fun c hc => ?_)).1
+    rcases List.mem_append.mp hc with hc | hc
+    · exact hw c hc
+    · rw [List.mem_singleton.mp hc]; trivial
+  have hstep : S' = ⟨(S.forest.createMissingPrefixes S.env node).1,
+      (S.forest.createMissingPrefixes S.env node).2.1, S.index⟩ := by
+    rw [hS', hS]; simp [PStore.run, List.foldl_append, PStore.step, PCall.run, Forest.XCall.run, PStore.store]
+  subst hS
+  have hi := (C04_reach_full env cs hw).1
+  have hfrag : RepresentableFragment ((PStore.init env).run cs).env r.erase = true := by
+    rw [(C01_reachable_representable_full env cs hw hoff r hr _).1]
+    simp [henv, hdoc, hval, hid]
+  have h1 := Forest.fpxr_rootOf_of_mem hi.nodup hr hn
+  obtain ⟨path, h2⟩ := Forest.fpxd_rootOf_path h1
+  obtain ⟨D, _, hg, _, _, hDe⟩ := Forest.fpxr_locate hi h1 h2
+  have hDel : D.erase.value.isElement = true := by
+    simp only [Forest.isElement, Forest.value?, hg, Option.map_some, beq_iff_eq, Option.some.injEq] at hel
+    cases D with | node h v ks => exact hel
+  obtain ⟨name, ks, hDk⟩ := isElement_node hDel
+  rw [hDk] at hDe
+  obtain ⟨r', a1, a2, a3, a4, a5, a6, _, _⟩ := C10_forest_repair_refines_tree _ hi
+    ((PStore.init env).run cs).env node hel r h1 path h2
+  obtain ⟨b1, b2, ks', s, p, X, c1, c2, c3, c4, c5, c6, c7, c8, c9⟩ :=
+    C10_repair_roundtrip_inner _ r.erase hfrag htab path name ks hDe _ _ a2
+  subst hstep
+  refine ⟨?_, hi', rfl, r', path, name, ks, ks', h2, a4, a5, a3, a6, a2, hDe, c1, c2, b1, b2,
+    s, p, X, c3, c4, c5, c6, c7, c8, c9⟩
+  simp only [PCall.run, Forest.XCall.run, PStore.store]
+  rw [a1]
+
+/-! Non-vacuity, closed: the history `c10FullCalls` of section EndToEndFull (PARSE `<r xmlns:p="urn:a"><p:a>t</p:a></r>`,
+    remove the declaration of `p`, create the element `{urn:a}a` (handle 5), append it to `r`, give it the
+    attribute `p:a="v"`, a REJECTED parse).  The INNER element 5 sits at path `[0, 1]`; its names are not writable.
+    The step `create_missing_prefixes(5)` registers `n0` and declares it on the element (new handle 7, before the
+    attribute 6); `to_string(5)` is `<n0:a xmlns:n0="urn:a" n0:a="v"/>`, which parses to the standalone document. -/
+
+example :
+    let S := (PStore.init Env.fresh).run c10FullCalls
+    (∀ c ∈ c10FullCalls, c.wellKinded) ∧ S.forest.everOff = false ∧ S.forest.roots = [c10FullRoot] ∧
+    c10FullRoot.value.isDocument = true ∧ envOK S.env = true ∧
+    c10FullRoot.erase.allNodes (fun v _ => valueOK S.env v) = true ∧
+    (xmlIdValues S.env c10FullRoot.erase).Nodup ∧ nameTableOK S.env = true ∧
+    5 ∈ c10FullRoot.handles ∧ S.forest.isElement 5 = true ∧ c10FullRoot.pathOf 5 = some [0, 1] ∧
+    namesWritable S.env c10FullRoot.erase [0, 1] = some false := by decide +kernel
+
+example :
+    let S' := (PStore.init Env.fresh).run (c10FullCalls ++ [.api (.createMissingPrefixes 5)])
+    S'.env.prefixes = [[], ['x','m','l'], ['p'], ['n','0']] ∧
+    S'.forest.roots.map (·.handles) = [[0, 1, 3, 4, 5, 7, 6]] ∧
+    S'.forest.roots.map (fun r' => toXmlString S'.env r'.erase [0, 1]) =
+      [.ok "<n0:a xmlns:n0=\"urn:a\" n0:a=\"v\"/>".toList] ∧
+    S'.forest.roots.map (fun r' => standalone r'.erase [0, 1]) =
+      [some (.node .document [.node (.element 3) [.node (.namespace 3 2) [], .node (.attribute 3 ['v']) []]])] := by
+  decide +kernel
+
+example : ∃ r' ks' s p X,
+    let S' := (PStore.init Env.fresh).run (c10FullCalls ++ [.api (.createMissingPrefixes 5)])
+    S'.forest.rootOf? 5 = some r' ∧ r'.erase.at? [0, 1] = some (.node (.element 3) ks') ∧
+      toXmlString S'.env r'.erase [0, 1] = .ok s ∧ parseString .document S'.env s = .ok p ∧
+      p.tree = .node .document [.node (.element 3) (nsLeaves X ++ ks')] ∧ p.env = S'.env ∧
+      deepEqual (.node (.element 3) (nsLeaves X ++ ks')) (.node (.element 3) [.node (.attribute 3 ['v']) []]) = true := by
+  obtain ⟨_, _, _, r', path, name, ks, ks', h1, _, _, h4, _, _, h7, h8, _, _, _, s, p, X, k1, _, k3, k4, k5, _, k7⟩ :=
+    C10_repair_roundtrip_inner_full Env.fresh c10FullCalls (by decide) _ rfl (by decide +kernel)
+      c10FullRoot (by decide +kernel) rfl (by decide +kernel) (by decide +kernel) (by decide +kernel)
+      (by decide +kernel) 5 (by decide) (by decide +kernel) _ rfl
+  have hp : c10FullRoot.pathOf 5 = some [0, 1] := by decide
+  rw [hp, Option.some.injEq] at h1
+  subst h1
+  have he : c10FullRoot.erase.at? [0, 1] = some (.node (.element 3) [.node (.attribute 3 ['v']) []]) := by decide
+  rw [he, Option.some.injEq] at h7
+  injection h7 with hv hk
+  injection hv with hname
+  subst hname hk
+  exact ⟨r', ks', s, p, X, h4, h8, k1, k3, k4, k5, k7⟩
+
+end InnerFull
 
 end XotModel.Props
